@@ -35,3 +35,28 @@ package metadata
 //@ props C02
 //@ ensures.wraps[C02] typeis(result, "*readMetadata") && as(result, "*readMetadata").metadata == metadata && fresh(as(result, "*readMetadata"))
 //@ modifies nothing
+
+// File backend: which read outcomes count as "no checkpoint yet" (C01, C02). File contents and JSON
+// are outside the generator's reach (bounded stand-in file-and-readonly-backend); the classification
+// of the read outcome is decided here.
+// Assumed: decoding a file into the result map writes that map only (JSON is outside the generator's reach).
+//@ extern wrapper.(*ConcurrentSwissMap).UnmarshalJSON
+//@ params recv data
+//@ modifies content(recv)
+
+//@ func (*fileMetadata).Load
+//@ params s vbIds bucketUUID
+//@ props C01 C02
+//@ requires s != nil
+//@ let readErr = dret("os.ReadFile", 0, 1)
+//@ let missing = readErr != nil && upred("err.is", readErr, os.ErrNotExist)
+//@ loop 1
+//@   invariant.filled forall j int :: 0 <= j && j <= rangeindex ==> has(state, vbIds[j]) && state[vbIds[j]] != nil && state[vbIds[j]].Checkpoint != nil && state[vbIds[j]].Checkpoint.Snapshot != nil && state[vbIds[j]].Checkpoint.SeqNo == 0 && state[vbIds[j]].Checkpoint.VbUUID == 0 && state[vbIds[j]].Checkpoint.Snapshot.StartSeqNo == 0 && state[vbIds[j]].Checkpoint.Snapshot.EndSeqNo == 0
+//@   invariant.range 0 <= rangeindex + 1 && rangeindex + 1 <= len(vbIds)
+//@   modifies content(state), newobjs(models.CheckpointDocument), newobjs(models.CheckpointDocumentCheckpoint), newobjs(models.CheckpointDocumentSnapshot)
+//@ ensures.one_read[C02] dcalls("os.ReadFile") == 1 && darg("os.ReadFile", 0, 0) == s.fileName
+//@ ensures.a_read_fault_is_an_error[C01,C02] readErr != nil && !missing ==> result2 != nil
+//@ ensures.only_a_missing_file_is_no_checkpoint[C01,C02] result2 == nil && !result1 ==> missing
+//@ ensures.missing_file_starts_from_zero[C02] missing ==> result2 == nil && !result1 && result0 != nil && forall j int :: 0 <= j && j < len(vbIds) ==> has(result0, vbIds[j]) && result0[vbIds[j]] != nil && result0[vbIds[j]].Checkpoint != nil && result0[vbIds[j]].Checkpoint.Snapshot != nil && result0[vbIds[j]].Checkpoint.SeqNo == 0 && result0[vbIds[j]].Checkpoint.VbUUID == 0 && result0[vbIds[j]].Checkpoint.Snapshot.StartSeqNo == 0 && result0[vbIds[j]].Checkpoint.Snapshot.EndSeqNo == 0
+//@ ensures.present_file_is_loaded[C02] readErr == nil ==> result2 == nil && result1 && result0 != nil && dcalls("wrapper.(*ConcurrentSwissMap).UnmarshalJSON") == 1
+//@ modifies anything
